@@ -10,7 +10,10 @@
 (***************************************************************************)
 EXTENDS Naturals, Sequences, FiniteSets, TLC, Json
 
-Stages == {"frame", "batch", "string", "bytes", "bincode_struct", "bincode_vec", "bincode_string",
+\* "frame": the decoder's decode() on a buffer; "frame_stream": the same bytes through the framed reader the
+\* server and the client use (tokio-util FramedRead over a byte source that ends: decode_eof path included)
+
+Stages == {"frame", "frame_stream", "batch", "string", "bytes", "bincode_struct", "bincode_vec", "bincode_string",
            "gzip", "zlib", "zstd", "lz4", "brotli",
            "sub_plain", "sub_batch", "sub_gzip_batch", "sub_zstd_batch", "sub_lz4", "sub_brotli_batch"}
 
@@ -19,7 +22,8 @@ Mutations == {"valid", "empty", "truncate_1", "truncate_half", "truncate_last", 
               "flip_last", "garbage_small", "garbage_big", "append_junk",
               "len_2p32", "len_2p40", "len_2p61", "len_max",          \* first length field replaced
               "count_huge", "count_plus_one", "elem_len_over", "elem_len_max", "short_header",
-              "declared_size_huge"}     \* a well-formed compressed frame whose header announces a huge content size
+              "declared_size_huge",     \* a well-formed compressed frame whose header announces a huge content size
+              "stray_1", "stray_3", "stray_7"}   \* a valid frame, then the stream ends inside the next length marker
 Sizes == {"tiny", "small", "medium"}
 
 \* which mutations make sense for which stage
@@ -27,8 +31,9 @@ Applies(st, mu) ==
     CASE mu \in {"count_huge", "count_plus_one", "elem_len_over", "elem_len_max", "short_header"} ->
             st \in {"batch", "sub_batch", "sub_gzip_batch", "sub_zstd_batch", "sub_brotli_batch"}
       [] mu \in {"len_2p32", "len_2p40", "len_2p61", "len_max"} ->
-            st \in {"frame", "batch", "bincode_struct", "bincode_vec", "bincode_string", "sub_batch"}
+            st \in {"frame", "frame_stream", "batch", "bincode_struct", "bincode_vec", "bincode_string", "sub_batch"}
       [] mu = "declared_size_huge" -> st \in {"zstd", "sub_zstd_batch"}
+      [] mu \in {"stray_1", "stray_3", "stray_7"} -> st \in {"frame", "frame_stream"}
       [] OTHER -> TRUE
 
 Cases == {[stage |-> st, mut |-> mu, size |-> sz] : st \in Stages, mu \in Mutations, sz \in Sizes}
@@ -38,7 +43,7 @@ Cases == {[stage |-> st, mut |-> mu, size |-> sz] : st \in Stages, mu \in Mutati
 Allowed(c) ==
     CASE c.mut = "valid" -> {"ok"}
       [] c.mut \in {"count_huge", "elem_len_over", "elem_len_max", "short_header", "count_plus_one"} -> {"err"}
-      [] c.mut \in {"len_2p32", "len_2p40", "len_2p61", "len_max"} /\ c.stage \in {"frame", "batch", "sub_batch"} -> {"err"}
+      [] c.mut \in {"len_2p32", "len_2p40", "len_2p61", "len_max"} /\ c.stage \in {"frame", "frame_stream", "batch", "sub_batch"} -> {"err"}
       [] OTHER -> {"ok", "err"}
 
 \* memory bound: a * (input + output) + b
